@@ -52,6 +52,9 @@ def main(argv):
                          'do nothing else (determinism self-test)')
     a = ap.parse_args(argv)
     prop = a.prop
+    # numpy RuntimeWarnings from deliberately nasty lenses are not findings
+    import warnings
+    warnings.filterwarnings('ignore')
     import optiland
     if a.replay:
         doc, res = runner.replay_file(a.replay)
